@@ -7,6 +7,7 @@ package cache
 // C17 (capacity part): the replacement policy's charge counter never exceeds the configured capacity after any of
 // its operations, an admitted node is charged exactly its size, every eviction takes the evicted node's size off
 // the counter, and every node taken off the list has its handle released exactly once.
+//@ count (*Cache).EvictNS
 //@ count (*Handle).Release
 //@ func (*lru).SetCapacity
 //@   props C17
